@@ -1,6 +1,7 @@
 import HH.Proofs.Obs
 import HH.Props.C05
 import HH.Props.C06
+import HH.Props.C08
 /-!
 # C11 — restoring from arbitrary 164 bytes is total and back-end independent
 
@@ -42,6 +43,19 @@ theorem restored_laws (b : Backend) (c : List (BitVec 8)) (hc : c.length = 164) 
   · have e := C05.empty_append h r.2; exact ⟨e.2.1, e.2.2⟩
   · intro chunks w; exact C05.streaming h r.2 chunks w
   · intro b' h' hr suffix w; exact (C06.hop_transparent h r.2 b' h' hr suffix).1 w
+
+/-- totality, in the panicking semantics: restoring ANY 164-byte array fires no panic point, with or
+without overflow checks / debug assertions, on every pointer width ≥ 16 bits (so also on 32-bit
+targets, where `count as usize` is the whole range of `usize`), and then no later safe call
+sequence panics either -/
+theorem restore_never_panics (p : Profile) (hW : C08.WideEnough p) (c : List (BitVec 8)) (hc : c.length = 164)
+    (chunks : List (List (BitVec 8))) :
+    PP.fromCheckpoint p c = .ok (P.fromCheckpoint c) ∧
+    C08.appendAll p (P.fromCheckpoint c) chunks = .ok (chunks.foldl P.append (P.fromCheckpoint c)) ∧
+    PP.finalize64 p (chunks.foldl P.append (P.fromCheckpoint c)) = .ok (P.finalize64 (chunks.foldl P.append (P.fromCheckpoint c))) := by
+  have hi := (P.fromCheckpoint_abs c hc).2
+  have h := C08.history_ok p hW chunks (P.fromCheckpoint c) hi
+  exact ⟨C08.fromCheckpoint_ok p hW c hc, h.1, h.2.1⟩
 
 /-- the pending count of the decoded state is < 32 whatever the count field says -/
 theorem decoded_count_lt (c : List (BitVec 8)) : (P.decodeAbs c).2.length < 32 := P.decode_pending_lt c
